@@ -9,6 +9,14 @@ paths through the node in the mode's direction, forks = largest child), ignored 
 fork's index, segregation index in [0,1] with the exact 0 / 1 cases, tortuosity ≥ 1 and == 1 on
 straight integer chains, per-segment lengths sum to the cable length.
 
+Second pass: on the default path with `to_ignore` / `min_twig_size` navis-fastcore is compared EXACTLY with its
+as-observed Lean model (`c17.strahlerfc`), so the open finding's signature only ever covers the deviation that model
+exhibits; the twig clause itself is evaluated by the Lean checker `ignoredTwigsOKB` on navis' column; bending flow is
+compared with the path-count specification `bendSpec`; flow_centrality with `fcSpec` at every node (forks and roots
+included); `segment_analysis` row by row (length, tortuosity, root_dist, Strahler index, radius statistics with NaN
+radii, volume) against `Model/SegAnalysis.lean`; streams with unsorted branch-point ids, integer connector labels,
+NeuronList inputs.
+
 Every case runner takes a back-end tag `be` (None = default configuration = navis-fastcore); the
 caller is responsible for switching the back-end (`harness.backends.backend`).  `run` itself re-runs
 the Strahler / flow streams under the pure-Python configurations."""
@@ -72,11 +80,15 @@ class Topo:
         return sum(1 for i in self.ids if self.par[i] >= 0)
 
 
-def set_connectors(x, cn):
+def set_connectors(x, cn, int_labels=False):
+    """`int_labels`: connector types 0 (pre) / 1 (post) instead of the strings (the second label scheme navis accepts)"""
     if cn:
+        ty = [c[1] for c in cn]
+        if int_labels:
+            ty = np.array([0 if t == 'pre' else 1 for t in ty], dtype=np.int64)
         x.connectors = pd.DataFrame({'connector_id': np.arange(100, 100 + len(cn), dtype=np.int64),
                                      'node_id': np.array([c[0] for c in cn], dtype=np.int64),
-                                     'type': [c[1] for c in cn], 'x': 0.0, 'y': 0.0, 'z': 0.0})
+                                     'type': ty, 'x': 0.0, 'y': 0.0, 'z': 0.0})
 
 
 def rand_connectors(rng, ids, kind=None):
@@ -137,22 +149,7 @@ def effective_ignore(tp, ign, mt):
     return eff
 
 
-def fastcore_ignore_sig(tp, eff, be):
-    """navis-fastcore (compiled, outside the repo) deviates from the documented `to_ignore` semantics only when
-    an ignored twig does not hang on a non-root fork (it hangs on a root), or when every child branch of
-    a fork is an ignored twig (the fork then gets 0)."""
-    if not fast(be) or not eff:
-        return None
-    leafs = [l for l in eff if l in tp.ch and tp.par[l] >= 0 and not tp.ch[l]]
-    ends = {}
-    for l in leafs:
-        tw = tp.twig(l)
-        if tp.par[tw[-1]] < 0:
-            return 'strahler_index/fastcore/ignored-twigs-keep-index-0'
-        ends.setdefault(tw[-1], set()).add(tw[-2])
-    if any(len(kids) == len(tp.ch[f]) for f, kids in ends.items()):
-        return 'strahler_index/fastcore/ignored-twigs-keep-index-0'
-    return None
+FC_SIG = 'strahler_index/fastcore/ignored-twigs-keep-index-0'
 
 
 def case_strahler(ctx, case, be=None):
@@ -163,38 +160,41 @@ def case_strahler(ctx, case, be=None):
     g, ign, mt = case['greedy'], case['ignore'], case['min_twig']
     eff = effective_ignore(tp, ign, mt)
     what = f"strahler_index(method={'greedy' if g else 'standard'}, to_ignore={len(ign)} leafs, min_twig_size={mt})"
+    ig = np.array(ign, dtype=np.int64) if case.get('ign_array') else list(ign)
     try:
-        navis.strahler_index(x, method='greedy' if g else 'standard', to_ignore=list(ign), min_twig_size=mt)
+        navis.strahler_index(x, method='greedy' if g else 'standard', to_ignore=ig, min_twig_size=mt)
         impl = {i: int(v) for i, v in col(x, 'strahler_index').items()}
     except Exception as e:
         ctx.oracle(False, f'{what} raised {type(e).__name__}: {str(e)[:100]} {tag(be)}', case)
         return
-    model = ctx.ask(f"p.strahler {int(g)} {','.join(map(str, ign)) or '-'} {mt or 0} | {wire}")
+    head = f"{int(g)} {','.join(map(str, ign)) or '-'} {mt or 0}"
+    model = ctx.ask(f"p.strahler {head} | {wire}")
     ctx.count('strahler', f"{'greedy' if g else 'standard'} ign={'y' if ign else 'n'} mt={'y' if mt else 'n'} {be or 'default'}")
     if tp.forking_roots():
         ctx.count('strahler_forking_root', be or 'default')
     if not eff:
         # the recurrence itself, checked by the Lean checker on navis' own column
-        sig = None
         ok = ctx.ask(f'c17.strahlerok {int(g)} | {wire} | {show_col(impl)}')
         ctx.oracle(ok == '1', f'{what}: the Strahler recurrence (leaf 1; single child: child\'s index; fork: max, +1 when the max occurs '
-                   f'at least twice; greedy: sum) fails on the returned column: {ok} {tag(be)}', case, signature=sig)
-        ctx.corr(show_col(impl), model, f'{what} vs recurrence {tag(be)}', case, signature=sig)
+                   f'at least twice; greedy: sum) fails on the returned column: {ok} {tag(be)}', case)
+        ctx.corr(show_col(impl), model, f'{what} vs recurrence {tag(be)}', case)
         return
-    # ignored / too short twigs: nodes of a twig that hangs on a fork take the fork's index
-    sig = fastcore_ignore_sig(tp, eff, be)
-    bad = None
-    for l in sorted(eff):
-        if l not in tp.ch or tp.par.get(l, -1) < 0 or tp.ch[l]:
-            continue
-        tw = tp.twig(l)
-        s = tw[-1]
-        if len(tp.ch[s]) >= 2 and any(impl[n] != impl[s] for n in tw[:-1]):
-            bad = (l, s, [impl[n] for n in tw])
-            break
-    ctx.oracle(bad is None, f'{what}: ignored twig starting at leaf {bad and bad[0]} does not take the index of the branch it hangs on '
-               f'(fork {bad and bad[1]}; indices along the twig up to the fork: {bad and bad[2]}) {tag(be)}', case, signature=sig)
-    ctx.corr(show_col(impl), model, f'{what} vs recurrence with ignored twigs {tag(be)}', case, signature=sig)
+    # ignored / too short twigs.  Default path = compiled navis-fastcore: compared exactly with its as-observed model, so
+    # that the open finding covers only what that model does; the signature is attached iff that model itself
+    # violates the clause / differs from the documented semantics on THIS input.
+    sig_o = sig_c = None
+    if fast(be):
+        fcm = ctx.ask(f'c17.strahlerfc {head} | {wire}')
+        ctx.corr(show_col(impl), fcm, f'{what} vs navis-fastcore\'s observed treatment of ignored twigs {tag(be)}', case)
+        if ctx.ask(f"c17.twigsok {head.split(' ', 1)[1]} | {wire} | {fcm}") != '1':
+            sig_o = FC_SIG
+        if fcm != model:
+            sig_c = FC_SIG
+        ctx.count('strahler_fc_finding', f"clause={'y' if sig_o else 'n'} values={'y' if sig_c else 'n'}")
+    ok = ctx.ask(f"c17.twigsok {head.split(' ', 1)[1]} | {wire} | {show_col(impl)}")
+    ctx.oracle(ok == '1', f'{what}: an ignored twig that hangs on a branch point does not carry that branch point\'s index on all its nodes: '
+               f'{ok} {tag(be)}', case, signature=sig_o)
+    ctx.corr(show_col(impl), model, f'{what} vs recurrence with ignored twigs {tag(be)}', case, signature=sig_c)
 
 
 # ------------------------------------------------------------------------------------------------
@@ -204,7 +204,7 @@ def case_sfc(ctx, case, be=None):
     rows, cn, mode = case['rows'], case['connectors'], case['mode']
     tp = Topo(rows)
     x = G.to_neuron(rows)
-    set_connectors(x, cn)
+    set_connectors(x, cn, case.get('int_labels', False))
     wire = G.wire_neuron(x, labels=False)
     pre, post = syn_wire(cn, 'pre'), syn_wire(cn, 'post')
     what = f'synapse_flow_centrality(mode={mode})'
@@ -213,6 +213,10 @@ def case_sfc(ctx, case, be=None):
         impl = col(x, 'synapse_flow_centrality')
     except Exception as e:
         ctx.oracle(False, f'{what} raised {type(e).__name__}: {str(e)[:100]} {tag(be)}', case)
+        return
+    neg = [i for i in sorted(impl) if impl[i] is not None and impl[i] < 0]
+    if neg:
+        ctx.oracle(False, f'{what}: node {neg[0]} has the negative value {impl[neg[0]]}: not a number of paths {tag(be)}', case)
         return
     ctx.count('sfc', f'{mode} {case.get("ckind")} {be or "default"}')
     if len(tp.roots) > 1:
@@ -250,14 +254,28 @@ def case_flowc(ctx, case, be=None):
             and impl[i] != max(impl[c] for c in tp.ch[i])]
     ctx.oracle(not badf, f'{what}: fork {badf and badf[0]} has {badf and impl[badf[0]]}, its children have '
                f'{badf and [impl[c] for c in tp.ch[badf[0]]]}: a fork takes its largest child\'s value {tag(be)}', case)
-    # by the definition: number of tip-to-tip paths leaving the node towards its parent, per tree
-    spec = parse_col(ctx.ask(f'c17.tips {wire}'))
-    diff = [i for i in sorted(impl) if not tp.is_fork(i) and tp.par[i] >= 0 and str(int(impl[i] or 0)) != spec[i]]
-    if diff:
-        sig = 'flow_centrality/terminal-twig/zero-instead-of-tip-count' if all(tp.on_terminal_twig(i) for i in diff) else None
-        i = diff[0]
-        ctx.oracle(False, f'{what}: node {i} has {impl[i]}, but {spec[i]} tip-to-tip paths run through it towards the root {tag(be)}', case, signature=sig)
-    else:
+    # by the definition (`fcSpec`): number of tip-to-tip paths leaving the node towards its parent (per tree), forks
+    # taking their largest child's count — compared at EVERY node.  The two known deviations are classified exactly:
+    # Props/C17 `flow_centrality_counts_tip_paths` proves that the code's scheme equals the specification everywhere else.
+    spec = parse_col(ctx.ask(f'c17.fcspec {wire}'))
+    diff = [i for i in sorted(impl) if str(int(impl[i] or 0)) != spec[i]]
+    twig = [i for i in diff if tp.par[i] >= 0 and (tp.on_terminal_twig(i) if not tp.is_fork(i) else any(tp.on_terminal_twig(c) for c in tp.ch[i]))]
+    froot = [i for i in diff if tp.par[i] < 0 and len(tp.ch[i]) >= 2]
+    other = [i for i in diff if i not in twig and i not in froot]
+    ctx.count('flowc_deviation', f"twig={'y' if twig else 'n'} forking-root={'y' if froot else 'n'}")
+    if twig:
+        i = twig[0]
+        ctx.oracle(False, f'{what}: node {i} has {impl[i]}, but {spec[i]} tip-to-tip paths run through it towards the root '
+                   f'(forks: largest child) {tag(be)}', case, signature='flow_centrality/terminal-twig/zero-instead-of-tip-count')
+    if froot:
+        i = froot[0]
+        ctx.oracle(False, f'{what}: forking root {i} has {impl[i]} (the value of whichever of its segments is visited first), but no tip-to-tip '
+                   f'path leaves a root towards a parent: expected {spec[i]} {tag(be)}', case, signature='flow_centrality/forking-root/inherits-first-segment')
+    if other:
+        i = other[0]
+        ctx.oracle(False, f'{what}: node {i} has {impl[i]}, but {spec[i]} tip-to-tip paths run through it towards the root '
+                   f'(forks: largest child) {tag(be)}', case)
+    if not diff:
         ctx.oracle(True, what, case)
 
 
@@ -268,7 +286,7 @@ def case_bend(ctx, case, be=None):
     rows, cn = case['rows'], case['connectors']
     tp = Topo(rows)
     x = G.to_neuron(rows)
-    set_connectors(x, cn)
+    set_connectors(x, cn, case.get('int_labels', False))
     wire = G.wire_neuron(x, labels=False)
     pre, post = syn_wire(cn, 'pre'), syn_wire(cn, 'post')
     what = 'bending_flow'
@@ -286,10 +304,10 @@ def case_bend(ctx, case, be=None):
     model = ctx.ask(f'c17.bend {pre} | {post} | {wire}')
     ctx.corr(show_col(impl0), model, f'{what} vs Σ distal_post[left]·distal_pre[right] over ordered pairs of child branches {tag(be)}', case)
     # definition at forks: number of (post, pre) pairs sitting below two different children
-    spec = parse_col(ctx.ask(f'c17.bendpairs {pre} | {post} | {wire}'))
+    spec = parse_col(ctx.ask(f'c17.bendspec {pre} | {post} | {wire}'))
     badf = [i for i in sorted(impl0) if len(tp.ch[i]) >= 2 and str(int(impl0[i])) != spec[i]]
-    ctx.oracle(not badf, f'{what}: fork {badf and badf[0]} has {badf and impl0[badf[0]]}, but {badf and spec[badf[0]]} post→pre paths bend there '
-               f'from one child branch into another {tag(be)}', case)
+    ctx.oracle(not badf, f'{what}: fork {badf and badf[0]} has {badf and impl0[badf[0]]}, but {badf and spec[badf[0]]} post→pre tree paths bend there '
+               f'(the fork is the apex of the path and neither of its ends) {tag(be)}', case)
 
 
 # ------------------------------------------------------------------------------------------------
@@ -327,7 +345,7 @@ def case_arborseg(ctx, case, be=None):
     rows, cn = case['rows'], case['connectors']
     tp = Topo(rows)
     x = G.to_neuron(rows)
-    set_connectors(x, cn)
+    set_connectors(x, cn, case.get('int_labels', False))
     wire = G.wire_neuron(x, labels=False)
     kinds = {c[1] for c in cn}
     what = 'arbor_segregation_index'
@@ -400,32 +418,185 @@ def case_tort(ctx, case, be=None):
         ctx.oracle(v == 1.0, f'tortuosity of straight segments = {v!r}, expected exactly 1 {tag(be)}', case)
 
 
-def case_sa(ctx, case, be=None):
-    rows = case['rows']
-    tp = Topo(rows)
+def case_tortseg(ctx, case, be=None):
+    """tortuosity(x, seg_length=L): every linear stretch is cut into pieces of geodesic length L; each piece contributes
+    L / (Euclidean distance of its ends) ≥ 1 (arc ≥ chord, `arc_ge_chord`); straight stretches give exactly 1 (up to
+    the rounding of the interpolation)."""
+    rows, L = case['rows'], case['seg_length']
     x = G.to_neuron(rows)
-    wire = G.wire_neuron(x, labels=False)
-    cable = int(ctx.ask('f.cable ' + wire))
-    # building blocks used by segment_analysis
     try:
-        segs = navis.graph.graph_utils._break_segments(x)
-        lens = [float(navis.graph.graph_utils.segment_length(x, s)) for s in segs]
+        with warnings.catch_warnings():
+            warnings.simplefilter('ignore')
+            v = navis.tortuosity(x, seg_length=L)
+    except ValueError as e:
+        ctx.count('tortseg', 'rejected: ' + ('resolution' if 'resolution' in str(e) else 'other'))
+        ctx.oracle('sampling' in str(e) or '> 0' in str(e), f'tortuosity(seg_length={L}) raised ValueError: {str(e)[:100]} {tag(be)}', case)
+        return
+    except Exception as e:
+        # no stretch longer than seg_length: the mean of nothing
+        ctx.count('tortseg', f'raised {type(e).__name__}')
+        ctx.oracle(isinstance(e, AttributeError), f'tortuosity(seg_length={L}) raised {type(e).__name__}: {str(e)[:100]} {tag(be)}', case)
+        return
+    v = float(v)
+    if math.isnan(v):
+        ctx.count('tortseg', 'no-stretch-long-enough')
+        return
+    ctx.count('tortseg', case.get('tkind', 'random'))
+    ctx.oracle(v >= 1 - 1e-9, f'tortuosity(seg_length={L}) = {v!r} < 1 {tag(be)}', case)
+    if case.get('tkind') == 'straight':
+        ctx.oracle(abs(v - 1) <= 1e-9, f'tortuosity(seg_length={L}) of straight stretches = {v!r}, expected 1 {tag(be)}', case)
+    if case.get('with_list'):
+        xs = navis.NeuronList([x, G.to_neuron(rows, id=77)])
+        with warnings.catch_warnings():
+            warnings.simplefilter('ignore')
+            df = navis.tortuosity(xs, seg_length=[L])
+        vals = [float(u) for u in np.asarray(df.values).ravel()]
+        ctx.oracle(all(abs(u - v) <= 1e-12 for u in vals), f'tortuosity(NeuronList, seg_length=[{L}]) = {vals}, single neuron gives {v!r} {tag(be)}', case)
+
+
+RAD_SCALE = 256      # radii are k/256 (exact doubles, far below the soma-detection threshold); `None` = NaN
+
+
+def neuron_with_radii(rows, radii):
+    df = G.rows_to_df(rows)
+    df['radius'] = np.array([np.nan if radii.get(r['id']) is None else radii[r['id']] / RAD_SCALE for r in rows], dtype=float)
+    return navis.TreeNeuron(df, units='1 nm')
+
+
+def case_sa(ctx, case, be=None):
+    """segment_analysis row by row against Model/SegAnalysis.lean (rows are matched through `_break_segments`, the
+    function segment_analysis itself iterates over)."""
+    rows = case['rows']
+    radii = {int(k): v for k, v in case.get('radii', {}).items()} if case.get('radii') is not None else {r['id']: 3 for r in rows}
+    x = neuron_with_radii(rows, radii)
+    wire = G.wire_neuron(x, labels=False)
+    rwire = ' '.join(f'{i}={v}' for i, v in sorted(radii.items()) if v is not None)
+    ans, _, tail = ctx.ask(f'c17.sa {rwire} | {wire}').partition(' # ')
+    cable, totvol = (int(v) for v in tail.split())
+    model = {}
+    for tok in ans.split():
+        f = [int(v) for v in tok.split(':')]
+        model[f[0]] = dict(last=f[1], nodes=f[2], length=f[3], chordsq=f[4], rootdist=f[5], si=f[6], rc=f[7], rsum=f[8], rmin=f[9], rmax=f[10], vol3=f[11])
+    what = f"segment_analysis({case.get('rkind', 'const')} radii)"
+    try:
+        segs = [list(map(int, sg)) for sg in navis.graph.graph_utils._break_segments(x)]
+        lens = [float(navis.graph.graph_utils.segment_length(x, sg)) for sg in segs]
         ctx.oracle(sum(lens) == cable == float(x.cable_length), f'segment lengths over _break_segments sum to {sum(lens)}, cable length is '
                    f'{x.cable_length} (model: {cable}) {tag(be)}', case)
     except Exception as e:
         ctx.oracle(False, f'_break_segments/segment_length raised {type(e).__name__}: {str(e)[:100]} {tag(be)}', case)
-    try:
-        sa = navis.segment_analysis(G.to_neuron(rows))
-    except Exception as e:
-        ctx.oracle(False, f'segment_analysis raised {type(e).__name__}: {str(e)[:100]} {tag(be)}', case)
         return
-    ctx.count('sa', 'returned')
-    ctx.oracle(float(sa.length.sum()) == cable, f'segment_analysis: per-segment lengths sum to {sa.length.sum()}, cable length is {cable} {tag(be)}', case)
-    flag, _, rest = ctx.ask('c17.tort ' + wire).partition(' # ')
-    parts = [tuple(int(v) for v in p.split(':')) for p in rest.split()]
-    ctx.corr(sorted(int(v) for v in sa.length.values), sorted(p[2] for p in parts), f'segment_analysis: multiset of segment lengths {tag(be)}', case)
+    try:
+        with warnings.catch_warnings():
+            warnings.simplefilter('ignore')
+            sa = navis.segment_analysis(x)
+    except Exception as e:
+        sig = 'segment_analysis/readonly-assignment' if 'read-only' in str(e) else None
+        ctx.oracle(False, f'{what} raised {type(e).__name__}: {str(e)[:100]} {tag(be)}', case, signature=sig)
+        return
+    ctx.count('sa', case.get('rkind', 'const'))
+    ctx.oracle(float(sa.length.sum()) == cable, f'{what}: per-segment lengths sum to {sa.length.sum()}, cable length is {cable} {tag(be)}', case)
+    ctx.corr(sorted(sg[0] for sg in segs), sorted(model), f'{what}: set of segments (by first node) {tag(be)}', case)
+    if len(sa) != len(segs) or sorted(sg[0] for sg in segs) != sorted(model):
+        ctx.corr(len(sa), len(segs), f'{what}: one row per small segment {tag(be)}', case)
+        return
+    cols = ['length', 'tortuosity', 'root_dist', 'strahler_index', 'radius_mean', 'radius_min', 'radius_max', 'volume']
+    ctx.corr([c for c in cols if c in sa.columns], cols, f'{what}: columns {tag(be)}', case)
+    k3 = math.pi / 3 / RAD_SCALE ** 2
+
+    def close(a, b):
+        return (math.isnan(a) and math.isnan(b)) or (math.isinf(a) and math.isinf(b) and a * b > 0) or abs(a - b) <= 1e-9 * max(1.0, abs(b))
+    for j, sg in enumerate(segs):
+        m = model[sg[0]]
+        r = sa.iloc[j]
+        bad = []
+        if sg[-1] != m['last'] or len(sg) != m['nodes']:
+            bad.append(f'segment {sg} vs model last={m["last"]} nodes={m["nodes"]}')
+        if float(r['length']) != m['length']:
+            bad.append(f'length {r["length"]} vs {m["length"]}')
+        want_t = (m['length'] / math.sqrt(m['chordsq'])) if m['chordsq'] > 0 else (math.inf if m['length'] > 0 else math.nan)
+        if not close(float(r['tortuosity']), want_t):
+            bad.append(f'tortuosity {r["tortuosity"]!r} vs arc/chord {want_t!r}')
+        if float(r['root_dist']) != m['rootdist']:
+            bad.append(f'root_dist {r["root_dist"]} vs {m["rootdist"]} (dist_to_root of the last node)')
+        if int(r['strahler_index']) != m['si']:
+            bad.append(f'strahler_index {r["strahler_index"]} vs {m["si"]} (index of the first node)')
+        if m['rc'] == 0:
+            if not all(math.isnan(float(r[c])) for c in ('radius_mean', 'radius_min', 'radius_max')):
+                bad.append('radius statistics of an all-NaN segment are not NaN')
+        else:
+            if not close(float(r['radius_mean']) * m['rc'] * RAD_SCALE, float(m['rsum'])):
+                bad.append(f'radius_mean {r["radius_mean"]!r} vs {m["rsum"]}/{m["rc"]}/{RAD_SCALE}')
+            if float(r['radius_min']) * RAD_SCALE != m['rmin'] or float(r['radius_max']) * RAD_SCALE != m['rmax']:
+                bad.append(f'radius_min/max {r["radius_min"]!r}/{r["radius_max"]!r} vs {m["rmin"]}/{m["rmax"]} /{RAD_SCALE}')
+        if not close(float(r['volume']), k3 * m['vol3']):
+            bad.append(f'volume {r["volume"]!r} vs π/3·Σ(r1²+r1·r2+r2²)·h = {k3 * m["vol3"]!r}')
+        if bad:
+            ctx.corr(f'segment {sg[0]}→{sg[-1]}: ' + '; '.join(bad), '', f'{what}: row {j} vs Model/SegAnalysis {tag(be)}', case)
+            break
+    else:
+        ctx.corr(True, True, what, case)
     t = sa.tortuosity.values
-    ctx.oracle(bool(np.all((t >= 1 - 1e-12) | ~np.isfinite(t))), f'segment_analysis: tortuosity < 1 {tag(be)}', case)
+    ctx.oracle(bool(np.all((t >= 1 - 1e-12) | ~np.isfinite(t))), f'{what}: tortuosity < 1 {tag(be)}', case)
+    ctx.oracle(close(float(np.nansum(sa.volume.values)), k3 * totvol), f'{what}: per-segment volumes sum to {float(np.nansum(sa.volume.values))!r}, '
+               f'the frusta of all node→parent edges add up to {k3 * totvol!r} {tag(be)}', case)
+    # every node of a segment but its last carries the Strahler index reported for the segment
+    si = col(x, 'strahler_index') if 'strahler_index' in x.nodes.columns else None
+    if si is not None:
+        badsi = [(sg, int(sa.iloc[j]['strahler_index'])) for j, sg in enumerate(segs) if any(int(si[n]) != int(sa.iloc[j]['strahler_index']) for n in sg[:-1])]
+        ctx.oracle(not badsi, f'{what}: segment {badsi and badsi[0][0]} is reported with Strahler index {badsi and badsi[0][1]}, its nodes carry '
+                   f'{badsi and [int(si[n]) for n in badsi[0][0]]} {tag(be)}', case)
+
+
+def case_nlist(ctx, case, be=None):
+    """NeuronList inputs (`map_neuronlist`): every neuron of the list gets its own result"""
+    parts = case['parts']
+    fn = case['fn']
+    xs = []
+    for k, pt in enumerate(parts):
+        x = G.to_neuron(pt['rows'], id=1000 + k)
+        set_connectors(x, pt['connectors'])
+        xs.append(x)
+    nl = navis.NeuronList(xs)
+    what = f'{fn}(NeuronList of {len(xs)})'
+    try:
+        if fn == 'strahler_index':
+            navis.strahler_index(nl); colname = 'strahler_index'
+        elif fn == 'synapse_flow_centrality':
+            navis.synapse_flow_centrality(nl, mode=case['mode']); colname = 'synapse_flow_centrality'
+        elif fn == 'bending_flow':
+            navis.bending_flow(nl); colname = 'bending_flow'
+        elif fn == 'flow_centrality':
+            navis.flow_centrality(nl); colname = 'flow_centrality'
+        else:
+            sa = navis.segment_analysis(nl)
+    except Exception as e:
+        ctx.oracle(False, f'{what} raised {type(e).__name__}: {str(e)[:100]} {tag(be)}', case)
+        return
+    ctx.count('nlist', fn)
+    for k, (x, pt) in enumerate(zip(nl, parts)):
+        wire = G.wire_neuron(x, labels=False)
+        pre, post = syn_wire(pt['connectors'], 'pre'), syn_wire(pt['connectors'], 'post')
+        if fn == 'segment_analysis':
+            cable = int(ctx.ask('f.cable ' + wire))
+            got = float(sa[sa.neuron == x.id].length.sum())
+            ctx.oracle(got == cable, f'{what}: rows labelled with neuron {x.id} have lengths summing to {got}, its cable length is {cable} {tag(be)}', case)
+            continue
+        if colname not in x.nodes.columns:
+            ctx.oracle(False, f'{what}: neuron {k} has no column {colname} {tag(be)}', case)
+            return
+        impl = show_col({i: (0 if v is None else v) for i, v in col(x, colname).items()})
+        if fn == 'strahler_index':
+            model = ctx.ask(f'p.strahler 0 - 0 | {wire}')
+        elif fn == 'synapse_flow_centrality':
+            model = ctx.ask(f"c17.sfc {case['mode']} 1 | {pre} | {post} | {wire}")
+        elif fn == 'bending_flow':
+            model = ctx.ask(f'c17.bend {pre} | {post} | {wire}')
+        else:
+            m = parse_col(ctx.ask(f'c17.fc 1 | {wire}'))
+            im = parse_col(impl)
+            model = impl if all(im[i] in m[i].split('/') for i in im) else ' '.join(f'{i}={m[i]}' for i in sorted(m))
+        ctx.corr(impl, model, f'{what}: neuron {k} vs the single-neuron model {tag(be)}', case)
 
 
 # ------------------------------------------------------------------------------------------------
@@ -488,29 +659,104 @@ def rand_frags(rng):
     return fr, kind
 
 
+def unsorted_forks(rng):
+    """A tree whose branch points appear in the node table in DESCENDING id order and carry different numbers of
+    leafs / synapses: every place where a per-branch-point result (groupby / Series sorted by id) is written back
+    into the table-ordered selection goes wrong if it is done by position."""
+    k = rng.randint(2, 4)
+    par, forks = [-1], []
+    cur = 0
+    for j in range(k):
+        for _ in range(rng.randint(0, 2)):        # slabs between forks
+            par.append(cur); cur = len(par) - 1
+        par.append(cur); cur = len(par) - 1       # the fork itself
+        forks.append(cur)
+        for _ in range(1 + j + rng.randint(0, 1)):  # side twigs (different counts per fork)
+            par.append(cur); tip = len(par) - 1
+            for _ in range(rng.randint(0, 2)):
+                par.append(tip); tip = len(par) - 1
+    par.append(cur)                                # the spine ends in a leaf
+    n = len(par)
+    ids = [None] * n
+    big = sorted(rng.sample(range(1, 40 * n), n), reverse=True)
+    # forks get the largest ids in descending order along the spine; the rest is shuffled
+    for j, f in enumerate(forks):
+        ids[f] = big[j]
+    rest = big[len(forks):]
+    rng.shuffle(rest)
+    for i in range(n):
+        if ids[i] is None:
+            ids[i] = rest.pop()
+    pos = []
+    for i in range(n):
+        if par[i] < 0:
+            pos.append([0, 0, 0])
+        else:
+            v, _ = G.rand_vec(rng)
+            pos.append([pos[par[i]][c] + v[c] for c in range(3)])
+    rows = [dict(id=ids[i], parent=(ids[par[i]] if par[i] >= 0 else -1), x=pos[i][0], y=pos[i][1], z=pos[i][2]) for i in range(n)]
+    order = rng.choice(['parent_first', 'forks_first', 'shuffled'])
+    if order == 'forks_first':
+        rows = [rows[f] for f in forks] + [r for i, r in enumerate(rows) if i not in forks]
+    elif order == 'shuffled':
+        others = [r for i, r in enumerate(rows) if i not in forks]
+        rng.shuffle(others)
+        cut = sorted(rng.sample(range(len(others) + 1), len(forks)))
+        out, fi = [], 0
+        for j, r in enumerate(others + [None]):
+            while fi < len(forks) and cut[fi] == j:
+                out.append(rows[forks[fi]]); fi += 1
+            if r is not None:
+                out.append(r)
+        rows = out
+    return rows, dict(shape='unsorted-forks', n=n, labeling='forks-descending', order=order)
+
+
+def rand_radii(rng, rows):
+    kind = rng.choice(['random', 'random', 'nan', 'nan', 'zero', 'nan-segment'])
+    ids = [r['id'] for r in rows]
+    rad = {i: rng.randint(0, 200) for i in ids}
+    if kind == 'zero':
+        rad = {i: rng.choice([0, 0, 5]) for i in ids}
+    elif kind == 'nan':
+        for i in ids:
+            if rng.random() < 0.3:
+                rad[i] = None
+    elif kind == 'nan-segment':
+        tp = Topo(rows)
+        if tp.leafs:
+            for i in tp.twig(rng.choice(tp.leafs)):
+                rad[i] = None
+    return rad, kind
+
+
 def gen_cases(ctx, n=None):
     r = ctx.rng
     for k in range(n or ctx.budget(260, 900)):
         small = (k % 3 == 0)
-        rows, meta = G.rand_forest(r, nmax=9 if small else (16 if ctx.quick() else 22))
+        if k % 5 == 4:
+            rows, meta = unsorted_forks(r)
+        else:
+            rows, meta = G.rand_forest(r, nmax=9 if small else (16 if ctx.quick() else 22))
         tp = Topo(rows)
         ids = tp.ids
         # --- Strahler
         ign, mt = [], None
         u = r.random()
-        if u < 0.25 and tp.leafs:
+        if u < 0.3 and tp.leafs:
             ign = sorted(l for l in tp.leafs if r.random() < 0.4)
-        elif u < 0.4:
+        if 0.2 < u < 0.45:
             mt = r.choice([1, 2, 3, 4])
-        yield 'strahler', dict(rows=rows, greedy=r.random() < 0.4, ignore=ign, min_twig=mt, meta=meta)
+        yield 'strahler', dict(rows=rows, greedy=r.random() < 0.4, ignore=ign, min_twig=mt, ign_array=bool(ign) and r.random() < 0.3, meta=meta)
         # --- flows
         cn, ck = rand_connectors(r, ids)
-        yield 'sfc', dict(rows=rows, connectors=cn, ckind=ck, mode=MODES[k % 3], meta=meta)
+        il = r.random() < 0.15
+        yield 'sfc', dict(rows=rows, connectors=cn, ckind=ck, mode=MODES[k % 3], int_labels=il, meta=meta)
         if k % 2 == 0:
-            yield 'bend', dict(rows=rows, connectors=cn, ckind=ck, meta=meta)
+            yield 'bend', dict(rows=rows, connectors=cn, ckind=ck, int_labels=il, meta=meta)
         if k % 2 == 1:
-            yield 'arborseg', dict(rows=rows, connectors=cn, ckind=ck, meta=meta)
-        if k % 3 == 1:
+            yield 'arborseg', dict(rows=rows, connectors=cn, ckind=ck, int_labels=il, meta=meta)
+        if k % 3 == 1 or meta['shape'] == 'unsorted-forks':
             yield 'flowc', dict(rows=rows, meta=meta)
         # --- geometry
         if k % 3 == 2:
@@ -518,8 +764,25 @@ def gen_cases(ctx, n=None):
         if k % 6 == 0:
             srows = straight_forest(r, r.randint(2, 14))
             yield 'tort', dict(rows=srows, tkind='straight', meta=dict(shape='straight', n=len(srows), labeling='-', order='-'))
-        if k % 6 == 3:
-            yield 'sa', dict(rows=rows, meta=meta)
+        if k % 6 == 1:
+            byid = {q['id']: q for q in rows}
+            el = [math.dist((q['x'], q['y'], q['z']), (byid[q['parent']]['x'], byid[q['parent']]['y'], byid[q['parent']]['z'])) for q in rows if q['parent'] >= 0]
+            res = (sum(el) / len(el)) if el else 1
+            yield 'tortseg', dict(rows=rows, seg_length=int(res) + r.choice([0, 1, 2, 4]), tkind='random', with_list=(k % 12 == 1), meta=meta)
+        if k % 12 == 6:
+            srows = straight_forest(r, r.randint(3, 14))
+            yield 'tortseg', dict(rows=srows, seg_length=r.choice([4, 6, 12]), tkind='straight', meta=dict(shape='straight', n=len(srows), labeling='-', order='-'))
+        if k % 3 == 0:
+            rad, rk = rand_radii(r, rows)
+            yield 'sa', dict(rows=rows, radii={str(i): v for i, v in rad.items()}, rkind=rk, meta=meta)
+        if k % 12 == 5:
+            parts = []
+            for _ in range(r.randint(2, 3)):
+                prow, _ = G.rand_forest(r, nmax=10)
+                pcn, _ = rand_connectors(r, [q['id'] for q in prow], kind='mix')
+                parts.append(dict(rows=prow, connectors=pcn))
+            fn = ['strahler_index', 'synapse_flow_centrality', 'bending_flow', 'flow_centrality', 'segment_analysis'][(k // 12) % 5]
+            yield 'nlist', dict(parts=parts, fn=fn, mode=MODES[k % 3], meta=dict(shape='neuronlist', n=sum(len(p['rows']) for p in parts), labeling='-', order='-'))
         fr, fk = rand_frags(r)
         yield 'segidx', dict(frags=fr, fkind=fk, meta=dict(shape='frags', n=len(fr), labeling='-', order='-'))
 
@@ -541,7 +804,7 @@ def exhaustive_cases(nmax=5):
 
 
 RUNNERS = {'strahler': case_strahler, 'sfc': case_sfc, 'flowc': case_flowc, 'bend': case_bend, 'segidx': case_segidx,
-           'arborseg': case_arborseg, 'tort': case_tort, 'sa': case_sa}
+           'arborseg': case_arborseg, 'tort': case_tort, 'sa': case_sa, 'nlist': case_nlist, 'tortseg': case_tortseg}
 BACKEND_STREAMS = ('strahler', 'sfc', 'flowc', 'bend')     # re-run under the pure-Python configurations
 
 
@@ -556,15 +819,20 @@ def run_case(ctx, kind, case, be=None):
 def run(ctx, be=None):
     ctx.extra['rule'] = ('forests from harness/gen.py (integer edge lengths; branching roots, forests, ids containing 0, shuffled rows) with '
                          'connector tables (several synapses per node, none of one kind, all on one node); a case = (forest, metric, '
-                         'parameters[, back-end]); non-trivial when the forest has ≥ 3 nodes (fragment lists: ≥ 2 fragments)')
+                         'parameters[, back-end]); non-trivial when the forest has ≥ 3 nodes (fragment lists: ≥ 2 fragments); every 5th forest '
+                         'is an "unsorted-forks" tree (branch points in descending id order in the table, different leaf/synapse counts per '
+                         'fork); Strahler with to_ignore AND/OR min_twig_size (lists and arrays); connector labels pre/post and 0/1; '
+                         'segment_analysis with dyadic radii (random, zero, NaN, all-NaN segments); NeuronList inputs; tortuosity with seg_length')
     ctx.extra['assumptions'] = ['navis-fastcore (compiled) is treated as one more implementation of the model functions',
-                                'float results (segregation index, tortuosity) are compared with tolerance 1e-9; integer results exactly']
+                                'float results (segregation index, tortuosity, radius_mean, volume) are compared with tolerance 1e-9; integer results exactly',
+                                'navis-fastcore with to_ignore/min_twig_size is compared exactly with its as-observed model (Model/StrahlerFc.lean), '
+                                'which was fitted to navis-fastcore 0.13 on all 53 160 inputs with ≤ 6 nodes']
     k = 0
     for kind, case in gen_cases(ctx):
         k += 1
         m = case['meta']
         ctx.count('shape', m['shape']); ctx.count('labeling', m['labeling']); ctx.count('kind', kind)
-        nontriv = len(case.get('rows', case.get('frags'))) >= (3 if 'rows' in case else 2)
+        nontriv = (len(case.get('rows', case.get('frags', case.get('parts')))) >= (3 if 'rows' in case else 2))
         if be is not None:       # called by the C04 harness: the caller switches the back-end
             ctx.case(dict(case, kind=kind, be=be), nontrivial=nontriv)
             RUNNERS[kind](ctx, dict(case, kind=kind, be=be), be)
@@ -588,6 +856,13 @@ def run(ctx, be=None):
                     c = dict(rows=rows, greedy=g, ignore=[], min_twig=None, meta=dict(meta, n=n))
                     ctx.case(dict(c, kind='strahler', be=b), nontrivial=n >= 3)
                     run_case(ctx, 'strahler', c, b)
+                if n >= 3 and b != 'igraph':
+                    tpx = Topo(rows)
+                    opts = [([l], None) for l in tpx.leafs] + [(list(tpx.leafs), None), ([], 2), ([], 3), (tpx.leafs[:1], 3)]
+                    for ign_, mt_ in opts:
+                        c = dict(rows=rows, greedy=False, ignore=ign_, min_twig=mt_, meta=dict(meta, n=n))
+                        ctx.case(dict(c, kind='strahler', be=b), nontrivial=True)
+                        run_case(ctx, 'strahler', c, b)
                 if n <= 4 or b is None:
                     for mode in MODES:
                         c = dict(rows=rows, connectors=cn, ckind='fixed', mode=mode, meta=dict(meta, n=n))
